@@ -399,7 +399,10 @@ impl CaState {
 			"revoke" => "revoke".into(),
 			"acct" => "acctUpdate".into(),
 			"authz" => {
-				let id: usize = seg.get(1).and_then(|s| s.parse().ok()).unwrap_or(usize::MAX);
+				let id: usize = seg
+					.get(1)
+					.and_then(|s| s.parse().ok())
+					.unwrap_or(usize::MAX);
 				match self.authzs.get(id) {
 					Some(a) if a.fetched > 0 => "authzPoll".into(),
 					_ => "authz".into(),
@@ -407,7 +410,10 @@ impl CaState {
 			}
 			"chall" => "chall".into(),
 			"order" => {
-				let id: usize = seg.get(1).and_then(|s| s.parse().ok()).unwrap_or(usize::MAX);
+				let id: usize = seg
+					.get(1)
+					.and_then(|s| s.parse().ok())
+					.unwrap_or(usize::MAX);
 				match self.orders.get(id) {
 					Some(o) if o.finalized => "orderPoll2".into(),
 					_ => "orderPoll1".into(),
@@ -480,7 +486,12 @@ impl CaState {
 	}
 
 	/// Independent JWS checks (RFC 8555 section 6.2 .. 6.5, 7.3.4, 7.3.5).
-	fn check_jws(&mut self, req: &Req, kind: &str, ev_idx: usize) -> Result<Jws, (Vec<String>, String)> {
+	fn check_jws(
+		&mut self,
+		req: &Req,
+		kind: &str,
+		ev_idx: usize,
+	) -> Result<Jws, (Vec<String>, String)> {
 		let mut viol: Vec<String> = vec![];
 		match req.header("content-type") {
 			Some("application/jose+json") => {}
@@ -504,9 +515,15 @@ impl CaState {
 			viol.push(format!("jws-shape: members {keys:?}"));
 		}
 		let gets = |k: &str| obj.get(k).and_then(|v| v.as_str()).map(|s| s.to_string());
-		let (p_b64, pl_b64, sig_b64) = match (gets("protected"), gets("payload"), gets("signature")) {
+		let (p_b64, pl_b64, sig_b64) = match (gets("protected"), gets("payload"), gets("signature"))
+		{
 			(Some(a), Some(b), Some(c)) => (a, b, c),
-			_ => return fatal(viol, "jws-shape: protected/payload/signature must be strings".into()),
+			_ => {
+				return fatal(
+					viol,
+					"jws-shape: protected/payload/signature must be strings".into(),
+				)
+			}
 		};
 		let protected_raw = match b64u_dec(&p_b64) {
 			Ok(v) => v,
@@ -522,20 +539,32 @@ impl CaState {
 		};
 		let protected: Value = match serde_json::from_slice(&protected_raw) {
 			Ok(v) => v,
-			Err(e) => return fatal(viol, format!("jws-shape: protected header is not JSON: {e}")),
+			Err(e) => {
+				return fatal(
+					viol,
+					format!("jws-shape: protected header is not JSON: {e}"),
+				)
+			}
 		};
 		// url
 		let want_url = self.url(&req.path);
 		match protected.get("url").and_then(|v| v.as_str()) {
 			Some(u) if u == want_url => {}
-			other => viol.push(format!("jws-url: header url {other:?}, request URL {want_url}")),
+			other => viol.push(format!(
+				"jws-url: header url {other:?}, request URL {want_url}"
+			)),
 		}
 		// nonce
-		let nonce = protected.get("nonce").and_then(|v| v.as_str()).map(|s| s.to_string());
+		let nonce = protected
+			.get("nonce")
+			.and_then(|v| v.as_str())
+			.map(|s| s.to_string());
 		match &nonce {
 			None => viol.push("jws-nonce-issued: no nonce in protected header".into()),
 			Some(n) => match self.nonces.get(n).cloned() {
-				None => viol.push(format!("jws-nonce-issued: nonce {n:?} was never issued by this server")),
+				None => viol.push(format!(
+					"jws-nonce-issued: nonce {n:?} was never issued by this server"
+				)),
 				Some(Some(prev)) => viol.push(format!(
 					"jws-nonce-fresh: nonce {n:?} already used by delivered request (event {prev})"
 				)),
@@ -548,7 +577,9 @@ impl CaState {
 		let has_jwk = protected.get("jwk").is_some();
 		let has_kid = protected.get("kid").is_some();
 		if has_jwk == has_kid {
-			viol.push(format!("jws-jwk/kid: jwk present={has_jwk}, kid present={has_kid}"));
+			viol.push(format!(
+				"jws-jwk/kid: jwk present={has_jwk}, kid present={has_kid}"
+			));
 		}
 		if has_jwk && kind != "newAccount" && kind != "revoke" {
 			viol.push(format!("jws-jwk/kid: jwk used on {kind}"));
@@ -567,7 +598,10 @@ impl CaState {
 			protected.get("jwk").cloned()
 		} else if let Some(kid) = protected.get("kid").and_then(|v| v.as_str()) {
 			let prefix = self.url("/acct/");
-			match kid.strip_prefix(&prefix).and_then(|s| s.parse::<usize>().ok()) {
+			match kid
+				.strip_prefix(&prefix)
+				.and_then(|s| s.parse::<usize>().ok())
+			{
 				Some(id) if id < self.accts.len() && self.accts[id].known => {
 					acct = Some(id);
 					Some(self.accts[id].jwk.clone())
@@ -622,9 +656,17 @@ impl CaState {
 				return None;
 			}
 		};
-		let gets = |k: &str| obj.get(k).and_then(|v| v.as_str()).unwrap_or("").to_string();
+		let gets = |k: &str| {
+			obj.get(k)
+				.and_then(|v| v.as_str())
+				.unwrap_or("")
+				.to_string()
+		};
 		let (p, pl, s) = (gets("protected"), gets("payload"), gets("signature"));
-		let prot: Value = match b64u_dec(&p).ok().and_then(|b| serde_json::from_slice(&b).ok()) {
+		let prot: Value = match b64u_dec(&p)
+			.ok()
+			.and_then(|b| serde_json::from_slice(&b).ok())
+		{
 			Some(v) => v,
 			None => {
 				viol.push("eab: bad protected".into());
@@ -632,14 +674,21 @@ impl CaState {
 			}
 		};
 		let alg = prot.get("alg").and_then(|v| v.as_str()).unwrap_or("");
-		let kid = prot.get("kid").and_then(|v| v.as_str()).unwrap_or("").to_string();
+		let kid = prot
+			.get("kid")
+			.and_then(|v| v.as_str())
+			.unwrap_or("")
+			.to_string();
 		if prot.get("nonce").is_some() {
 			viol.push("eab: nonce present in binding".into());
 		}
 		if prot.get("url").and_then(|v| v.as_str()) != Some(&self.url("/new-acct")) {
 			viol.push(format!("eab: url {:?}", prot.get("url")));
 		}
-		match b64u_dec(&pl).ok().and_then(|b| serde_json::from_slice::<Value>(&b).ok()) {
+		match b64u_dec(&pl)
+			.ok()
+			.and_then(|b| serde_json::from_slice::<Value>(&b).ok())
+		{
 			Some(v) if &v == outer_jwk => {}
 			_ => viol.push("eab: payload is not the account JWK".into()),
 		}
@@ -648,13 +697,17 @@ impl CaState {
 		match cred {
 			None => viol.push(format!("eab: unknown kid {kid:?}")),
 			Some(c) => {
-				let key = b64u_dec(c.get("key").and_then(|v| v.as_str()).unwrap_or("")).unwrap_or_default();
+				let key = b64u_dec(c.get("key").and_then(|v| v.as_str()).unwrap_or(""))
+					.unwrap_or_default();
 				if let Some(a) = c.get("alg").and_then(|v| v.as_str()) {
 					if a != alg {
 						viol.push(format!("eab: alg {alg} instead of {a}"));
 					}
 				}
-				match (cu::hmac(alg, &key, format!("{p}.{pl}").as_bytes()), b64u_dec(&s)) {
+				match (
+					cu::hmac(alg, &key, format!("{p}.{pl}").as_bytes()),
+					b64u_dec(&s),
+				) {
 					(Ok(mac), Ok(sig)) if mac == sig => {}
 					_ => viol.push("eab: MAC does not verify".into()),
 				}
@@ -663,14 +716,23 @@ impl CaState {
 		Some(kid)
 	}
 
-	fn default_response(&mut self, req: &Req, kind: &str, jws: Option<&Jws>, ev: &mut Value) -> Resp {
+	fn default_response(
+		&mut self,
+		req: &Req,
+		kind: &str,
+		jws: Option<&Jws>,
+		ev: &mut Value,
+	) -> Resp {
 		let seg: Vec<String> = req
 			.path
 			.trim_start_matches('/')
 			.split('/')
 			.map(|s| s.to_string())
 			.collect();
-		let id: usize = seg.get(1).and_then(|s| s.parse().ok()).unwrap_or(usize::MAX);
+		let id: usize = seg
+			.get(1)
+			.and_then(|s| s.parse().ok())
+			.unwrap_or(usize::MAX);
 		let payload_json: Option<Value> = jws.and_then(|j| {
 			if j.payload.is_empty() {
 				None
@@ -711,17 +773,33 @@ impl CaState {
 				let j = jws.unwrap();
 				let jwk = match &j.jwk {
 					Some(k) => k.clone(),
-					None => return Resp::problem(400, Some("urn:ietf:params:acme:error:malformed"), "no jwk"),
+					None => {
+						return Resp::problem(
+							400,
+							Some("urn:ietf:params:acme:error:malformed"),
+							"no jwk",
+						)
+					}
 				};
 				let thumb = match cu::thumbprint(&jwk) {
 					Ok(t) => t,
-					Err(e) => return Resp::problem(400, Some("urn:ietf:params:acme:error:badPublicKey"), &e),
+					Err(e) => {
+						return Resp::problem(
+							400,
+							Some("urn:ietf:params:acme:error:badPublicKey"),
+							&e,
+						)
+					}
 				};
 				let p = payload_json.unwrap_or(json!({}));
 				let contacts: Vec<String> = p
 					.get("contact")
 					.and_then(|c| c.as_array())
-					.map(|a| a.iter().filter_map(|x| x.as_str().map(|s| s.to_string())).collect())
+					.map(|a| {
+						a.iter()
+							.filter_map(|x| x.as_str().map(|s| s.to_string()))
+							.collect()
+					})
 					.unwrap_or_default();
 				let mut eab_kid = None;
 				let mut eab_viol = vec![];
@@ -737,10 +815,17 @@ impl CaState {
 				}
 				if !eab_viol.is_empty() {
 					ev["eab_violations"] = json!(eab_viol);
-					return Resp::problem(403, Some("urn:ietf:params:acme:error:unauthorized"), "bad external account binding");
+					return Resp::problem(
+						403,
+						Some("urn:ietf:params:acme:error:unauthorized"),
+						"bad external account binding",
+					);
 				}
 				ev["contacts"] = json!(contacts);
-				ev["tos_agreed"] = p.get("termsOfServiceAgreed").cloned().unwrap_or(Value::Null);
+				ev["tos_agreed"] = p
+					.get("termsOfServiceAgreed")
+					.cloned()
+					.unwrap_or(Value::Null);
 				ev["thumb"] = json!(thumb);
 				if let Some(a) = self.accts.iter_mut().find(|a| a.thumb == thumb && a.known) {
 					a.registrations += 1;
@@ -755,7 +840,11 @@ impl CaState {
 					return r;
 				}
 				if p.get("onlyReturnExisting").and_then(|v| v.as_bool()) == Some(true) {
-					return Resp::problem(400, Some("urn:ietf:params:acme:error:accountDoesNotExist"), "no such account");
+					return Resp::problem(
+						400,
+						Some("urn:ietf:params:acme:error:accountDoesNotExist"),
+						"no such account",
+					);
 				}
 				let a = Acct {
 					id: self.accts.len(),
@@ -776,12 +865,18 @@ impl CaState {
 			}
 			"acctUpdate" => {
 				if acct != Some(id) {
-					return Resp::problem(403, Some("urn:ietf:params:acme:error:unauthorized"), "kid does not match account URL");
+					return Resp::problem(
+						403,
+						Some("urn:ietf:params:acme:error:unauthorized"),
+						"kid does not match account URL",
+					);
 				}
 				if let Some(p) = payload_json {
 					if let Some(c) = p.get("contact").and_then(|c| c.as_array()) {
-						let contacts: Vec<String> =
-							c.iter().filter_map(|x| x.as_str().map(|s| s.to_string())).collect();
+						let contacts: Vec<String> = c
+							.iter()
+							.filter_map(|x| x.as_str().map(|s| s.to_string()))
+							.collect();
 						ev["contacts"] = json!(contacts);
 						self.accts[id].contacts = contacts;
 					}
@@ -797,11 +892,23 @@ impl CaState {
 				let j = jws.unwrap();
 				let acct_id = match acct {
 					Some(a) => a,
-					None => return Resp::problem(400, Some("urn:ietf:params:acme:error:malformed"), "keyChange needs kid"),
+					None => {
+						return Resp::problem(
+							400,
+							Some("urn:ietf:params:acme:error:malformed"),
+							"keyChange needs kid",
+						)
+					}
 				};
 				let mut viol: Vec<String> = vec![];
 				let inner: Value = serde_json::from_slice(&j.payload).unwrap_or(Value::Null);
-				let gets = |k: &str| inner.get(k).and_then(|v| v.as_str()).unwrap_or("").to_string();
+				let gets = |k: &str| {
+					inner
+						.get(k)
+						.and_then(|v| v.as_str())
+						.unwrap_or("")
+						.to_string()
+				};
 				let (p, pl, s) = (gets("protected"), gets("payload"), gets("signature"));
 				let prot: Value = b64u_dec(&p)
 					.ok()
@@ -816,17 +923,26 @@ impl CaState {
 					viol.push("rollover-inner: kid present in inner JWS".into());
 				}
 				if prot.get("url") != j.protected.get("url") {
-					viol.push(format!("rollover-inner: inner url {:?} != outer url", prot.get("url")));
+					viol.push(format!(
+						"rollover-inner: inner url {:?} != outer url",
+						prot.get("url")
+					));
 				}
 				if prot.get("nonce").is_some() {
 					// RFC 8555 7.3.5: inner JWS MAY omit nonce; if present it is ignored -> not a violation
 				}
 				let want_acct = self.url(&format!("/acct/{acct_id}"));
 				if inner_pl.get("account").and_then(|v| v.as_str()) != Some(&want_acct) {
-					viol.push(format!("rollover-inner: account {:?}", inner_pl.get("account")));
+					viol.push(format!(
+						"rollover-inner: account {:?}",
+						inner_pl.get("account")
+					));
 				}
 				let on_record = self.accts[acct_id].jwk.clone();
-				let same_key = match (inner_pl.get("oldKey").map(cu::thumbprint), cu::thumbprint(&on_record)) {
+				let same_key = match (
+					inner_pl.get("oldKey").map(cu::thumbprint),
+					cu::thumbprint(&on_record),
+				) {
 					(Some(Ok(a)), Ok(b)) => a == b,
 					_ => false,
 				};
@@ -838,7 +954,12 @@ impl CaState {
 					Some(nj) => match cu::jwk_to_pubkey(nj) {
 						Ok(pk) => {
 							let alg = prot.get("alg").and_then(|v| v.as_str()).unwrap_or("");
-							if let Err(e) = cu::verify_sig(&pk, alg, format!("{p}.{pl}").as_bytes(), &b64u_dec(&s).unwrap_or_default()) {
+							if let Err(e) = cu::verify_sig(
+								&pk,
+								alg,
+								format!("{p}.{pl}").as_bytes(),
+								&b64u_dec(&s).unwrap_or_default(),
+							) {
 								viol.push(format!("rollover-inner: signature by new key: {e}"));
 							}
 						}
@@ -848,12 +969,20 @@ impl CaState {
 				ev["acct"] = json!(acct_id);
 				if !viol.is_empty() {
 					ev["rollover_violations"] = json!(viol);
-					return Resp::problem(400, Some("urn:ietf:params:acme:error:malformed"), "bad key change");
+					return Resp::problem(
+						400,
+						Some("urn:ietf:params:acme:error:malformed"),
+						"bad key change",
+					);
 				}
 				let nj = new_jwk.unwrap();
 				let nt = cu::thumbprint(&nj).unwrap_or_default();
 				if self.accts.iter().any(|a| a.thumb == nt && a.known) {
-					return Resp::problem(409, Some("urn:ietf:params:acme:error:malformed"), "key already in use");
+					return Resp::problem(
+						409,
+						Some("urn:ietf:params:acme:error:malformed"),
+						"key already in use",
+					);
 				}
 				self.accts[acct_id].jwk = nj;
 				self.accts[acct_id].thumb = nt.clone();
@@ -864,7 +993,13 @@ impl CaState {
 			"newOrder" => {
 				let acct_id = match acct {
 					Some(a) => a,
-					None => return Resp::problem(400, Some("urn:ietf:params:acme:error:malformed"), "newOrder needs kid"),
+					None => {
+						return Resp::problem(
+							400,
+							Some("urn:ietf:params:acme:error:malformed"),
+							"newOrder needs kid",
+						)
+					}
 				};
 				let p = payload_json.unwrap_or(json!({}));
 				let idents: Vec<(String, String)> = p
@@ -874,17 +1009,29 @@ impl CaState {
 						a.iter()
 							.map(|x| {
 								(
-									x.get("type").and_then(|v| v.as_str()).unwrap_or("").to_string(),
-									x.get("value").and_then(|v| v.as_str()).unwrap_or("").to_string(),
+									x.get("type")
+										.and_then(|v| v.as_str())
+										.unwrap_or("")
+										.to_string(),
+									x.get("value")
+										.and_then(|v| v.as_str())
+										.unwrap_or("")
+										.to_string(),
 								)
 							})
 							.collect()
 					})
 					.unwrap_or_default();
 				ev["identifiers"] = p.get("identifiers").cloned().unwrap_or(Value::Null);
-				ev["order_payload_keys"] = json!(p.as_object().map(|o| o.keys().cloned().collect::<Vec<String>>()));
+				ev["order_payload_keys"] = json!(p
+					.as_object()
+					.map(|o| o.keys().cloned().collect::<Vec<String>>()));
 				if idents.is_empty() {
-					return Resp::problem(400, Some("urn:ietf:params:acme:error:malformed"), "no identifiers");
+					return Resp::problem(
+						400,
+						Some("urn:ietf:params:acme:error:malformed"),
+						"no identifiers",
+					);
 				}
 				let oid = self.orders.len();
 				let mut authz_ids = vec![];
@@ -894,18 +1041,30 @@ impl CaState {
 						Some(b) if t == "dns" => (b.to_string(), true),
 						_ => (v.clone(), false),
 					};
-					let key = if wildcard { format!("*.{value}") } else { value.clone() };
+					let key = if wildcard {
+						format!("*.{value}")
+					} else {
+						value.clone()
+					};
 					let offered: Vec<String> = self
 						.cfg
 						.get("offered")
 						.and_then(|o| o.get(&key).or(o.get("*")))
 						.and_then(|a| a.as_array())
-						.map(|a| a.iter().filter_map(|x| x.as_str().map(|s| s.to_string())).collect())
+						.map(|a| {
+							a.iter()
+								.filter_map(|x| x.as_str().map(|s| s.to_string()))
+								.collect()
+						})
 						.unwrap_or_else(|| {
 							if t == "ip" {
 								vec!["http-01".to_string(), "tls-alpn-01".to_string()]
 							} else {
-								vec!["http-01".to_string(), "dns-01".to_string(), "tls-alpn-01".to_string()]
+								vec![
+									"http-01".to_string(),
+									"dns-01".to_string(),
+									"tls-alpn-01".to_string(),
+								]
 							}
 						});
 					let status = self
@@ -922,7 +1081,11 @@ impl CaState {
 							id: self.chall_ctr,
 							ctype: ct,
 							token,
-							status: if status == "valid" { "valid".into() } else { "pending".into() },
+							status: if status == "valid" {
+								"valid".into()
+							} else {
+								"pending".into()
+							},
 						});
 					}
 					let aid = self.authzs.len();
@@ -950,7 +1113,11 @@ impl CaState {
 					acct: acct_id,
 					idents,
 					authzs: authz_ids,
-					status: if all_valid { "ready".into() } else { "pending".into() },
+					status: if all_valid {
+						"ready".into()
+					} else {
+						"pending".into()
+					},
 					ready_polls_left: cfg_u64(&self.cfg, "order_ready_polls", 0),
 					valid_polls_left: cfg_u64(&self.cfg, "order_valid_polls", 0),
 					finalized: false,
@@ -967,10 +1134,18 @@ impl CaState {
 			}
 			"authz" | "authzPoll" => {
 				if id >= self.authzs.len() {
-					return Resp::problem(404, Some("urn:ietf:params:acme:error:malformed"), "no such authorization");
+					return Resp::problem(
+						404,
+						Some("urn:ietf:params:acme:error:malformed"),
+						"no such authorization",
+					);
 				}
 				if acct != Some(self.authzs[id].acct) {
-					return Resp::problem(403, Some("urn:ietf:params:acme:error:unauthorized"), "not your authorization");
+					return Resp::problem(
+						403,
+						Some("urn:ietf:params:acme:error:unauthorized"),
+						"not your authorization",
+					);
 				}
 				self.authzs[id].fetched += 1;
 				if kind == "authzPoll" {
@@ -1004,17 +1179,29 @@ impl CaState {
 				}
 				let (ai, ci) = match found {
 					Some(f) => f,
-					None => return Resp::problem(404, Some("urn:ietf:params:acme:error:malformed"), "no such challenge"),
+					None => {
+						return Resp::problem(
+							404,
+							Some("urn:ietf:params:acme:error:malformed"),
+							"no such challenge",
+						)
+					}
 				};
 				if acct != Some(self.authzs[ai].acct) {
-					return Resp::problem(403, Some("urn:ietf:params:acme:error:unauthorized"), "not your challenge");
+					return Resp::problem(
+						403,
+						Some("urn:ietf:params:acme:error:unauthorized"),
+						"not your challenge",
+					);
 				}
 				ev["authz"] = json!(ai);
 				ev["chall_type"] = json!(self.authzs[ai].challs[ci].ctype);
 				ev["token"] = json!(self.authzs[ai].challs[ci].token);
-				ev["chall_payload"] = json!(jws.map(|j| String::from_utf8_lossy(&j.payload).to_string()));
+				ev["chall_payload"] =
+					json!(jws.map(|j| String::from_utf8_lossy(&j.payload).to_string()));
 				let thumb = self.accts[self.authzs[ai].acct].thumb.clone();
-				ev["key_authorization"] = json!(format!("{}.{}", self.authzs[ai].challs[ci].token, thumb));
+				ev["key_authorization"] =
+					json!(format!("{}.{}", self.authzs[ai].challs[ci].token, thumb));
 				if self.authzs[ai].status == "pending" {
 					let mut ok = true;
 					if let Some(vcfg) = self.cfg.get("validate").cloned() {
@@ -1025,7 +1212,8 @@ impl CaState {
 					}
 					if ok {
 						self.authzs[ai].challs[ci].status = "processing".into();
-						self.authzs[ai].polls_left = Some(cfg_u64(&self.cfg, "authz_pending_polls", 0));
+						self.authzs[ai].polls_left =
+							Some(cfg_u64(&self.cfg, "authz_pending_polls", 0));
 					} else {
 						self.authzs[ai].challs[ci].status = "invalid".into();
 						self.authzs[ai].status = "invalid".into();
@@ -1034,18 +1222,35 @@ impl CaState {
 				let c = &self.authzs[ai].challs[ci];
 				let v = json!({"type": c.ctype, "url": self.url(&format!("/chall/{}", c.id)), "token": c.token, "status": c.status});
 				let mut r = Resp::json(200, &v);
-				r.set_header("Link", &format!("<{}>;rel=\"up\"", self.url(&format!("/authz/{ai}"))));
+				r.set_header(
+					"Link",
+					&format!("<{}>;rel=\"up\"", self.url(&format!("/authz/{ai}"))),
+				);
 				r
 			}
 			"orderPoll1" | "orderPoll2" => {
 				if id >= self.orders.len() {
-					return Resp::problem(404, Some("urn:ietf:params:acme:error:malformed"), "no such order");
+					return Resp::problem(
+						404,
+						Some("urn:ietf:params:acme:error:malformed"),
+						"no such order",
+					);
 				}
 				if acct != Some(self.orders[id].acct) {
-					return Resp::problem(403, Some("urn:ietf:params:acme:error:unauthorized"), "not your order");
+					return Resp::problem(
+						403,
+						Some("urn:ietf:params:acme:error:unauthorized"),
+						"not your order",
+					);
 				}
-				let all_valid = self.orders[id].authzs.iter().all(|a| self.authzs[*a].status == "valid");
-				let any_invalid = self.orders[id].authzs.iter().any(|a| self.authzs[*a].status == "invalid");
+				let all_valid = self.orders[id]
+					.authzs
+					.iter()
+					.all(|a| self.authzs[*a].status == "valid");
+				let any_invalid = self.orders[id]
+					.authzs
+					.iter()
+					.any(|a| self.authzs[*a].status == "invalid");
 				let o = &mut self.orders[id];
 				if o.status == "pending" {
 					if any_invalid {
@@ -1071,51 +1276,94 @@ impl CaState {
 			}
 			"finalize" => {
 				if id >= self.orders.len() {
-					return Resp::problem(404, Some("urn:ietf:params:acme:error:malformed"), "no such order");
+					return Resp::problem(
+						404,
+						Some("urn:ietf:params:acme:error:malformed"),
+						"no such order",
+					);
 				}
 				if acct != Some(self.orders[id].acct) {
-					return Resp::problem(403, Some("urn:ietf:params:acme:error:unauthorized"), "not your order");
+					return Resp::problem(
+						403,
+						Some("urn:ietf:params:acme:error:unauthorized"),
+						"not your order",
+					);
 				}
 				ev["order"] = json!(id);
 				// a pending order whose authorizations are all valid is ready (status is computed lazily)
-				let all_valid = self.orders[id].authzs.iter().all(|a| self.authzs[*a].status == "valid");
+				let all_valid = self.orders[id]
+					.authzs
+					.iter()
+					.all(|a| self.authzs[*a].status == "valid");
 				if self.orders[id].status == "pending" && all_valid {
 					self.orders[id].status = "ready".into();
 				}
 				if self.orders[id].status != "ready" {
-					return Resp::problem(403, Some("urn:ietf:params:acme:error:orderNotReady"), "order is not ready");
+					return Resp::problem(
+						403,
+						Some("urn:ietf:params:acme:error:orderNotReady"),
+						"order is not ready",
+					);
 				}
 				let p = payload_json.unwrap_or(json!({}));
-				ev["finalize_payload_keys"] = json!(p.as_object().map(|o| o.keys().cloned().collect::<Vec<String>>()));
+				ev["finalize_payload_keys"] = json!(p
+					.as_object()
+					.map(|o| o.keys().cloned().collect::<Vec<String>>()));
 				let csr_der = match p.get("csr").and_then(|v| v.as_str()).map(b64u_dec) {
 					Some(Ok(d)) => d,
 					_ => {
 						ev["csr"] = json!({"error": "csr missing or not base64url"});
-						return Resp::problem(400, Some("urn:ietf:params:acme:error:badCSR"), "csr missing or not base64url");
+						return Resp::problem(
+							400,
+							Some("urn:ietf:params:acme:error:badCSR"),
+							"csr missing or not base64url",
+						);
 					}
 				};
 				let (info, csr_report) = analyse_csr(&csr_der);
 				ev["csr"] = csr_report.clone();
 				let info = match info {
 					Some(i) => i,
-					None => return Resp::problem(400, Some("urn:ietf:params:acme:error:badCSR"), "unparseable CSR"),
+					None => {
+						return Resp::problem(
+							400,
+							Some("urn:ietf:params:acme:error:badCSR"),
+							"unparseable CSR",
+						)
+					}
 				};
 				if csr_report.get("selfsig_ok").and_then(|v| v.as_bool()) != Some(true) {
-					return Resp::problem(400, Some("urn:ietf:params:acme:error:badCSR"), "CSR self-signature invalid");
+					return Resp::problem(
+						400,
+						Some("urn:ietf:params:acme:error:badCSR"),
+						"CSR self-signature invalid",
+					);
 				}
 				// SAN set must equal the order's identifiers
 				let mut want: Vec<String> = self.orders[id]
 					.idents
 					.iter()
-					.map(|(t, v)| format!("{t}:{}", if t == "ip" { canon_ip(v) } else { v.clone() }))
+					.map(|(t, v)| {
+						format!("{t}:{}", if t == "ip" { canon_ip(v) } else { v.clone() })
+					})
 					.collect();
-				let mut got: Vec<String> = info.san.dns.iter().map(|d| format!("dns:{d}")).collect();
-				got.extend(info.san.ip.iter().map(|b| format!("ip:{}", ip_bytes_to_string(b))));
+				let mut got: Vec<String> =
+					info.san.dns.iter().map(|d| format!("dns:{d}")).collect();
+				got.extend(
+					info.san
+						.ip
+						.iter()
+						.map(|b| format!("ip:{}", ip_bytes_to_string(b))),
+				);
 				want.sort();
 				got.sort();
 				if want != got {
 					ev["csr_mismatch"] = json!({"order": want, "csr": got});
-					return Resp::problem(400, Some("urn:ietf:params:acme:error:badCSR"), "CSR names differ from the order");
+					return Resp::problem(
+						400,
+						Some("urn:ietf:params:acme:error:badCSR"),
+						"CSR names differ from the order",
+					);
 				}
 				let req509 = X509Req::from_der(&csr_der).unwrap();
 				let pubkey = req509.public_key().unwrap();
@@ -1146,10 +1394,18 @@ impl CaState {
 			}
 			"cert" => {
 				if id >= self.orders.len() || self.orders[id].cert_pem.is_none() {
-					return Resp::problem(404, Some("urn:ietf:params:acme:error:malformed"), "no such certificate");
+					return Resp::problem(
+						404,
+						Some("urn:ietf:params:acme:error:malformed"),
+						"no such certificate",
+					);
 				}
 				if acct != Some(self.orders[id].acct) {
-					return Resp::problem(403, Some("urn:ietf:params:acme:error:unauthorized"), "not your certificate");
+					return Resp::problem(
+						403,
+						Some("urn:ietf:params:acme:error:unauthorized"),
+						"not your certificate",
+					);
 				}
 				let pem = self.orders[id].cert_pem.clone().unwrap();
 				ev["order"] = json!(id);
@@ -1157,12 +1413,19 @@ impl CaState {
 				ev["leaf_sha256"] = json!(self.orders[id].leaf_sha256);
 				Resp {
 					status: 200,
-					headers: vec![("Content-Type".into(), "application/pem-certificate-chain".into())],
+					headers: vec![(
+						"Content-Type".into(),
+						"application/pem-certificate-chain".into(),
+					)],
 					body: pem.into_bytes(),
 					cut: None,
 				}
 			}
-			_ => Resp::problem(404, Some("urn:ietf:params:acme:error:malformed"), "unknown resource"),
+			_ => Resp::problem(
+				404,
+				Some("urn:ietf:params:acme:error:malformed"),
+				"unknown resource",
+			),
 		}
 	}
 
@@ -1206,7 +1469,11 @@ impl CaState {
 				status: 200,
 				headers: vec![],
 				body: b"{\"status\": \"pending\", \"partial".to_vec(),
-				cut: Some(if parts.get(1) == Some(&"mid") { "mid" } else { "before" }),
+				cut: Some(if parts.get(1) == Some(&"mid") {
+					"mid"
+				} else {
+					"before"
+				}),
 			},
 			_ => {
 				// modifications of the conforming response
@@ -1247,7 +1514,9 @@ impl CaState {
 					("nolocation", _) => r.del_header("Location"),
 					("nonce", "missing") => r.headers.push(("X-No-Nonce".into(), "1".into())),
 					("nonce", "empty") => r.headers.push(("X-Nonce-Override".into(), "".into())),
-					("nonce", "invalid") => r.headers.push(("X-Nonce-Override".into(), "a+b/c==".into())),
+					("nonce", "invalid") => r
+						.headers
+						.push(("X-Nonce-Override".into(), "a+b/c==".into())),
 					("nonce", "present") => r.del_header("X-No-Nonce"),
 					("cert", "nonpem") => r.body = b"this is not a certificate\n".to_vec(),
 					("cert", "empty") => r.body = vec![],
@@ -1256,7 +1525,8 @@ impl CaState {
 						r.body.truncate(n);
 					}
 					("cert", "garbagepem") => {
-						r.body = b"-----BEGIN CERTIFICATE-----\nAAAA\n-----END CERTIFICATE-----\n".to_vec()
+						r.body = b"-----BEGIN CERTIFICATE-----\nAAAA\n-----END CERTIFICATE-----\n"
+							.to_vec()
 					}
 					_ => {}
 				}
@@ -1267,7 +1537,11 @@ impl CaState {
 
 	pub fn handle(&mut self, req: &Req) -> (Resp, usize) {
 		let kind = self.classify(req);
-		let (cp_idx, answer) = choice(&kind, &self.name, json!({"path": req.path, "method": req.method}));
+		let (cp_idx, answer) = choice(
+			&kind,
+			&self.name,
+			json!({"path": req.path, "method": req.method}),
+		);
 		let mut ev = json!({
 			"ev": "req", "ca": self.name, "cp": cp_idx, "kind": kind, "method": req.method, "path": req.path,
 			"answer": answer,
@@ -1289,9 +1563,17 @@ impl CaState {
 						ev["jws_violations"] = json!(j.violations);
 						let nonce_only = j.violations.iter().all(|v| v.starts_with("jws-nonce"));
 						early = Some(if nonce_only {
-							Resp::problem(400, Some("urn:ietf:params:acme:error:badNonce"), "bad nonce")
+							Resp::problem(
+								400,
+								Some("urn:ietf:params:acme:error:badNonce"),
+								"bad nonce",
+							)
 						} else {
-							Resp::problem(400, Some("urn:ietf:params:acme:error:malformed"), "JWS verification error")
+							Resp::problem(
+								400,
+								Some("urn:ietf:params:acme:error:malformed"),
+								"JWS verification error",
+							)
 						});
 					}
 					jws = Some(j);
@@ -1302,14 +1584,22 @@ impl CaState {
 					}
 					early = Some(if msg == "accountDoesNotExist" {
 						ev["unknown_kid"] = json!(true);
-						Resp::problem(400, Some("urn:ietf:params:acme:error:accountDoesNotExist"), "unknown account")
+						Resp::problem(
+							400,
+							Some("urn:ietf:params:acme:error:accountDoesNotExist"),
+							"unknown account",
+						)
 					} else {
 						Resp::problem(400, Some("urn:ietf:params:acme:error:malformed"), &msg)
 					});
 				}
 			}
 		} else if kind != "dir" && kind != "newNonce" {
-			early = Some(Resp::problem(405, Some("urn:ietf:params:acme:error:malformed"), "POST-as-GET required"));
+			early = Some(Resp::problem(
+				405,
+				Some("urn:ietf:params:acme:error:malformed"),
+				"POST-as-GET required",
+			));
 		}
 		let is_fault = answer.starts_with("err") || answer.starts_with("cut");
 		let mut resp = if let Some(r) = early {
@@ -1503,7 +1793,12 @@ pub type Gate = Arc<dyn Fn(&str, usize) + Send + Sync>;
 impl CaServer {
 	/// `gate` is called (outside the state lock) after a response has been computed and before it
 	/// is written: E2 uses it to hold responses.
-	pub fn start(name: &str, cfg: &Value, tls: Option<Arc<openssl::ssl::SslAcceptor>>, gate: Option<Gate>) -> CaServer {
+	pub fn start(
+		name: &str,
+		cfg: &Value,
+		tls: Option<Arc<openssl::ssl::SslAcceptor>>,
+		gate: Option<Gate>,
+	) -> CaServer {
 		let listener = TcpListener::bind("127.0.0.1:0").unwrap();
 		let port = listener.local_addr().unwrap().port();
 		let scheme = if tls.is_some() { "https" } else { "http" };
@@ -1538,7 +1833,9 @@ impl CaServer {
 								let _ = s.shutdown();
 							}
 							Err(e) => {
-								log_event(json!({"ev": "tls_accept", "ca": name3, "ok": false, "err": format!("{e}")}));
+								log_event(
+									json!({"ev": "tls_accept", "ca": name3, "ok": false, "err": format!("{e}")}),
+								);
 							}
 						},
 						None => {
@@ -1564,7 +1861,12 @@ impl CaServer {
 	}
 }
 
-fn serve_one<S: Read + Write>(s: &mut S, st: &Arc<Mutex<CaState>>, gate: &Option<Gate>, name: &str) {
+fn serve_one<S: Read + Write>(
+	s: &mut S,
+	st: &Arc<Mutex<CaState>>,
+	gate: &Option<Gate>,
+	name: &str,
+) {
 	let req = match read_request(s) {
 		Some(r) => r,
 		None => {
